@@ -5,16 +5,11 @@ CONSTANT MaxEmpty = 5
 CONSTANT Extra = 1
 INVARIANT TypeOK
 INVARIANT Protocol
-INVARIANT MaskSound
-INVARIANT MaskLayout
 INVARIANT ContinuesIffLegalLeft
-INVARIANT IllegalUniform
 INVARIANT FeasibleUnderLegalPlay
 INVARIANT CompletionIsSolution
 INVARIANT RewardedOnlyWhenSolved
-INVARIANT Total
 INVARIANT HorizonOK
-INVARIANT ObsOK
 PROPERTY InvalidEffect
 PROPERTY OneCellPerStep
 PROPERTY CluesKept
